@@ -396,14 +396,16 @@ def check_property(pid, tier, seed, replay=None):
         names = [replay_case["bin"]]
     all_cases, failures, summary = [], {}, {"distribution": {}, "extra": {}, "distinct_nontrivial": 0, "wall": {}}
     tmo = cfg.get("timeout_thorough", 7200) if tier == "thorough" else cfg.get("timeout_quick", 900)
+    broken = []   # harnesses that did not build / run / evaluate: the other harnesses still run, so that the
+    #               failing-input search goes on (a concrete failing input beats "the tie is broken")
     for name in names:
         odir = os.path.join(outdir, name)
         rc, out, hb_wall = harness_build(name)
         if rc != 0:
             print(out[-3000:])
             print("harness %s does not build against /repo's working tree" % name)
-            return finish(pid, tier, seed, t0, ob, None, [], [{"kind": "build", "detail": out[-2000:]}], cfg,
-                          fatal="harness %s does not build" % name)
+            broken.append({"what": "harness %s does not build" % name, "kind": "build", "detail": out[-2000:]})
+            continue
         inputs = None
         if replay_case:
             inputs = os.path.join(WORK, pid + "-replay-inputs.jsonl")
@@ -412,15 +414,15 @@ def check_property(pid, tier, seed, replay=None):
         rc, out, h_wall = harness_run(name, pid, tier, seed, odir, inputs=inputs, timeout=tmo)
         if rc != 0:
             print(out[-3000:])
-            return finish(pid, tier, seed, t0, ob, None, [], [{"kind": "harness", "detail": out[-2000:]}], cfg,
-                          fatal="harness %s run failed (rc=%d)" % (name, rc))
+            broken.append({"what": "harness %s run failed (rc=%d)" % (name, rc), "kind": "harness", "detail": out[-2000:]})
+            continue
         cases = load_cases(odir)
         sm = json.load(open(os.path.join(odir, "summary.json")))
         fl, errors, coq_wall = run_shards(odir)
         if errors:
             print("\n".join(errors)[-3000:])
-            return finish(pid, tier, seed, t0, ob, sm, cases, [{"kind": "coqc", "detail": errors[:3]}], cfg,
-                          fatal="model evaluation failed (%s)" % name)
+            broken.append({"what": "model evaluation failed (%s)" % name, "kind": "coqc", "detail": errors[:3]})
+            continue
         base = len(all_cases)
         for c in cases:
             c["bin"] = name
@@ -437,10 +439,10 @@ def check_property(pid, tier, seed, replay=None):
         summary["distinct_nontrivial"] += sm.get("distinct_nontrivial", 0)
         summary["wall"][name] = {"harness_build_s": round(hb_wall, 1), "harness_s": round(h_wall, 1),
                                  "coq_cases_s": round(coq_wall, 1)}
-    return finish(pid, tier, seed, t0, ob, summary, all_cases, failures, cfg, replay=replay)
+    return finish(pid, tier, seed, t0, ob, summary, all_cases, failures, cfg, replay=replay, broken=broken)
 
 
-def finish(pid, tier, seed, t0, ob, summary, cases, failures, cfg, fatal=None, replay=None):
+def finish(pid, tier, seed, t0, ob, summary, cases, failures, cfg, fatal=None, replay=None, broken=None):
     findings = load_findings(pid)
     known_hit, violations, out_lines = {}, [], []
     nrep = 0
@@ -475,6 +477,12 @@ def finish(pid, tier, seed, t0, ob, summary, cases, failures, cfg, fatal=None, r
                 "names": "corr:%s/%s" % (pid, c.get("kind")),
                 "what": "model and implementation disagree; spec oracle passed on all %d cases explored (failing-input search found nothing)" % len(cases),
                 "case": c, "other_disagreeing_cases": corr_fail[:50], "n_disagreeing": len(corr_fail)})
+            violations.append((path, True))
+        if broken and not violations:
+            path = write_replay(pid, seed, nrep, {
+                "property": pid, "kind": "obligation", "names": "corr:%s/build" % pid,
+                "what": "; ".join(b["what"] for b in broken) + "; failing-input search over the remaining harnesses (%d cases) found nothing" % len(cases),
+                "detail": broken})
             violations.append((path, True))
         if ob["undischarged"] and not violations:
             path = write_replay(pid, seed, nrep, {
